@@ -153,6 +153,7 @@ func runC17(c *Ctx) {
 	defer c.ImportRules("C20", "C20.4")
 	p := c.P
 	defer runC17RulesAccumulate(c)
+	defer runC17VerdictPerItem(c)
 	defer runC17NoSharedDefaults(c)
 	// clause shared with C06: every accepted binding is reachable (sibling alternatives are tried)
 	defer c.ImportRules("C06", "C06.2")
@@ -1006,5 +1007,153 @@ func runC17NoSharedDefaults(c *Ctx) {
 	}
 	if bad == 0 {
 		c.OK("C17.7", "package", "global-map-into-field", token.NoPos, itoa(seen)+" stores of maps into struct fields examined: none aliases a package-level map")
+	}
+}
+
+// naturalLoops: header -> body blocks (header included) of every natural loop of fn.
+func naturalLoops(fn *ssa.Function) map[*ssa.BasicBlock]map[*ssa.BasicBlock]bool {
+	out := map[*ssa.BasicBlock]map[*ssa.BasicBlock]bool{}
+	for _, b := range fn.Blocks {
+		for _, h := range b.Succs {
+			if !h.Dominates(b) {
+				continue
+			}
+			body := out[h]
+			if body == nil {
+				body = map[*ssa.BasicBlock]bool{h: true}
+				out[h] = body
+			}
+			work := []*ssa.BasicBlock{b}
+			for len(work) > 0 {
+				x := work[len(work)-1]
+				work = work[:len(work)-1]
+				if body[x] {
+					continue
+				}
+				body[x] = true
+				work = append(work, x.Preds...)
+			}
+		}
+	}
+	return out
+}
+
+// runC17VerdictPerItem: C17.8 (seed C17n).  NewTranscoder judges each service (each rule, each
+// method) on its own: whether one item is servable cannot depend on which items were looked at
+// before it, or the same set of services is accepted in one order and rejected in another.
+// Structural: inside a loop of configuration-time code, a count that decides 'reject' (an integer
+// compared with a constant, one arm of which returns only errors) is not carried from one
+// iteration of that loop to the next - it is not a header phi of the loop, induction variables
+// (`i = i + c` on the back edge) excepted.
+func runC17VerdictPerItem(c *Ctx) {
+	p := c.P
+	c.Rule("C17.8", "a count that decides the rejection of one item is not carried over from the items before it", 1)
+	ctor := p.MustFunc("NewTranscoder")
+	n := 0
+	for _, fn := range SortedFuncs(p.Reach(ctor)) {
+		if !p.inScope(fn) || len(fn.Blocks) == 0 {
+			continue
+		}
+		ei := errorResultIndex(fn.Signature)
+		if ei < 0 {
+			continue
+		}
+		loops := naturalLoops(fn)
+		if len(loops) == 0 {
+			continue
+		}
+		for _, b := range fn.Blocks {
+			if len(b.Instrs) == 0 {
+				continue
+			}
+			iff, ok := b.Instrs[len(b.Instrs)-1].(*ssa.If)
+			if !ok {
+				continue
+			}
+			cmp, ok := iff.Cond.(*ssa.BinOp)
+			if !ok {
+				continue
+			}
+			var v ssa.Value
+			if _, isC := cmp.Y.(*ssa.Const); isC && isIntegerLike(cmp.X.Type()) {
+				v = cmp.X
+			} else if _, isC := cmp.X.(*ssa.Const); isC && isIntegerLike(cmp.Y.Type()) {
+				v = cmp.Y
+			}
+			if v == nil {
+				continue
+			}
+			rejects := false
+			for _, s := range b.Succs {
+				if ok, _ := succReturnsOnlyErrors(fn, s, ei); ok {
+					rejects = true
+				}
+			}
+			if !rejects {
+				continue
+			}
+			for h, body := range loops {
+				if !body[b] {
+					continue
+				}
+				n++
+				// does v depend on a value carried around this loop?
+				seen := map[ssa.Value]bool{}
+				var carried func(x ssa.Value, depth int) *ssa.Phi
+				carried = func(x ssa.Value, depth int) *ssa.Phi {
+					if depth > 8 || seen[x] {
+						return nil
+					}
+					seen[x] = true
+					switch y := x.(type) {
+					case *ssa.Phi:
+						if y.Block() == h {
+							// induction variable?
+							ind := true
+							for i, e := range y.Edges {
+								if !body[h.Preds[i]] {
+									continue // entry edge
+								}
+								bo, isB := e.(*ssa.BinOp)
+								if !isB || (bo.Op != token.ADD && bo.Op != token.SUB) || (bo.X != ssa.Value(y) && bo.Y != ssa.Value(y)) {
+									ind = false
+								} else if _, isK := bo.Y.(*ssa.Const); !isK {
+									if _, isK2 := bo.X.(*ssa.Const); !isK2 {
+										ind = false
+									}
+								}
+							}
+							if ind {
+								return nil
+							}
+							return y
+						}
+						if !body[y.Block()] {
+							return nil
+						}
+						for _, e := range y.Edges {
+							if ph := carried(e, depth+1); ph != nil {
+								return ph
+							}
+						}
+					case *ssa.BinOp:
+						if ph := carried(y.X, depth+1); ph != nil {
+							return ph
+						}
+						return carried(y.Y, depth+1)
+					case *ssa.Convert:
+						return carried(y.X, depth+1)
+					}
+					return nil
+				}
+				ph := carried(v, 0)
+				c.Check(ph == nil, "C17.8", FuncName(fn), "rejecting-count-is-per-item", iff.Pos(),
+					"the count that decides the rejection is started afresh for each item of the loop",
+					"the count compared here is carried from one iteration of the enclosing loop to the next: whether this item is rejected depends on the items before it (an unservable service is accepted when it follows a servable one)")
+			}
+		}
+	}
+	if n == 0 {
+		c.Bad("C17.8", FuncName(ctor), "rejecting-count-is-per-item", ctor.Pos(), "no count-based rejection inside a loop of the configuration code any more: shape changed")
 	}
 }
